@@ -31,6 +31,11 @@ type Alphabet struct {
 	In   []glyph.ID // glyphs used in input sequences
 	Out  []glyph.ID // further glyphs which substitutions may produce
 	Gdef *gdef.Table
+
+	// MarkAdvance: every third mark glyph (by glyph id) has a non-zero advance
+	// width too (a mark between a base and the mark being attached then moves
+	// the pen).
+	MarkAdvance bool
 }
 
 // All returns In followed by Out.
@@ -50,6 +55,9 @@ func (a *Alphabet) Class(gid glyph.ID) uint16 {
 // positioning.
 func (a *Alphabet) Width(gid glyph.ID) funit.Int16 {
 	if a.Class(gid) == gdef.GlyphClassMark {
+		if a.MarkAdvance && gid%3 == 0 {
+			return funit.Int16(30 + int(gid)%50)
+		}
 		return 0
 	}
 	return funit.Int16(400 + 7*(int(gid)%40))
@@ -70,9 +78,13 @@ const (
 
 // Small returns the five-glyph alphabet {base A, base B, mark M, ligature L,
 // unclassified X} with four more glyphs that only substitutions produce.
-func Small() *Alphabet {
+func Small() *Alphabet { return SmallX(X) }
+
+// SmallX is Small with another glyph id (for example 0) in the role of the
+// unclassified input glyph X.  x must not be one of the other eight glyphs.
+func SmallX(x glyph.ID) *Alphabet {
 	return &Alphabet{
-		In:  []glyph.ID{A, B, M, L, X},
+		In:  []glyph.ID{A, B, M, L, x},
 		Out: []glyph.ID{N, Y, Z, K},
 		Gdef: &gdef.Table{
 			GlyphClass: classdef.Table{
@@ -87,9 +99,14 @@ func Small() *Alphabet {
 }
 
 // Random returns an alphabet of n input glyphs (and n/4+2 output-only glyphs)
-// spread over the glyph id range [1, maxGid], with random GDEF data.  With
-// probability 1/8 there is no GDEF table, with probability 1/8 no mark
-// attachment classes, with probability 1/8 no mark glyph sets.
+// spread over the glyph id range [0, maxGid], with random GDEF data.  Glyph 0
+// is one of the input glyphs with probability 1/3 and one of the output-only
+// glyphs with probability 1/9.  With probability 1/8 there is no GDEF table,
+// with probability 1/8 no mark attachment classes, with probability 1/8 no
+// mark glyph sets.  One alphabet in 8 has glyph class values beyond the four
+// defined ones, one in 10 has many (20 … 120) mark glyph sets, one in 10 a
+// mark glyph set with hundreds of further glyphs, one in 6 marks with an
+// advance width.
 func Random(r *rand.Rand, n int, maxGid int) *Alphabet {
 	a := &Alphabet{}
 	seen := map[glyph.ID]bool{}
@@ -102,20 +119,41 @@ func Random(r *rand.Rand, n int, maxGid int) *Alphabet {
 			}
 		}
 	}
+	zeroAt := -1 // position of glyph 0 in In (0..n-1) or Out (n..)
+	switch x := r.IntN(9); {
+	case x < 3:
+		zeroAt = r.IntN(n)
+	case x == 3:
+		zeroAt = n + r.IntN(n/4+2)
+	}
 	for i := 0; i < n; i++ {
+		if i == zeroAt {
+			a.In = append(a.In, 0)
+			continue
+		}
 		a.In = append(a.In, pick())
 	}
 	for i := 0; i < n/4+2; i++ {
+		if n+i == zeroAt {
+			a.Out = append(a.Out, 0)
+			continue
+		}
 		a.Out = append(a.Out, pick())
 	}
 	if r.IntN(8) == 0 {
 		return a
 	}
+	a.MarkAdvance = r.IntN(6) == 0
 	gd := &gdef.Table{GlyphClass: classdef.Table{}}
 	var marks []glyph.ID
+	oddClasses := r.IntN(8) == 0
 	for _, g := range a.All() {
 		// 0 unclassified, 1 base, 2 ligature, 3 mark, 4 component
 		c := []uint16{0, 1, 1, 1, 2, 3, 3, 3, 4}[r.IntN(9)]
+		if oddClasses && r.IntN(4) == 0 {
+			// values without a meaning: such glyphs are never skipped
+			c = []uint16{5, 6, 7, 255, 256, 0x8000, 0xFFFF}[r.IntN(7)]
+		}
 		if c != 0 {
 			gd.GlyphClass[g] = c
 		}
@@ -138,6 +176,10 @@ func Random(r *rand.Rand, n int, maxGid int) *Alphabet {
 	}
 	if r.IntN(8) != 0 {
 		ns := 1 + r.IntN(3)
+		many, large := r.IntN(10) == 0, r.IntN(10) == 0
+		if many {
+			ns = 20 + r.IntN(101)
+		}
 		for i := 0; i < ns; i++ {
 			set := coverage.Set{}
 			for _, g := range marks {
@@ -147,6 +189,12 @@ func Random(r *rand.Rand, n int, maxGid int) *Alphabet {
 			}
 			if len(a.In) > 0 && r.IntN(4) == 0 {
 				set[a.In[r.IntN(len(a.In))]] = true // possibly a non-mark
+			}
+			if large && i == 0 {
+				// glyphs outside the alphabet (they may turn up in input sequences)
+				for j, m := 0, 300+r.IntN(2000); j < m; j++ {
+					set[glyph.ID(r.IntN(65536))] = true
+				}
 			}
 			gd.MarkGlyphSets = append(gd.MarkGlyphSets, set)
 		}
@@ -403,11 +451,31 @@ func (g *Gen) value(allowNil bool) *gtab.GposValueRecord {
 	return v
 }
 
+// anchorTable draws an anchor.  allowEmpty is for the anchors of base and
+// mark2 rows, where (0,0) means "no anchor" (probability 1/5); the anchor of
+// a mark record is mandatory and (0,0) is a position like any other there
+// (probability 1/8).  One anchor in 8 lies on the baseline (y = 0, x != 0),
+// one in 8 below it.
 func (g *Gen) anchorTable(allowEmpty bool) anchor.Table {
-	if allowEmpty && g.R.IntN(5) == 0 {
+	r := g.R
+	if allowEmpty && r.IntN(5) == 0 {
 		return anchor.Table{}
 	}
-	return anchor.Table{X: funit.Int16(g.R.IntN(601) - 300), Y: funit.Int16(1 + g.R.IntN(800))}
+	x := funit.Int16(r.IntN(601) - 300)
+	switch r.IntN(8) {
+	case 0:
+		if !allowEmpty {
+			return anchor.Table{} // a mark attached at its origin
+		}
+	case 1:
+		if x == 0 {
+			x = 17
+		}
+		return anchor.Table{X: x, Y: 0}
+	case 2:
+		return anchor.Table{X: x, Y: funit.Int16(-1 - r.IntN(400))}
+	}
+	return anchor.Table{X: x, Y: funit.Int16(1 + r.IntN(800))}
 }
 
 // classDef assigns classes 0..nc-1 to the glyphs of the alphabet (class 0
